@@ -868,6 +868,13 @@ func (x *runner) directCase(ca *authority, thorough bool) {
 			if lp == nil || lf == nil || !bytes.Equal(leafBytes(lp), leafBytes(lf)) || len(leafBytes(lp)) == 0 {
 				x.out.Fail(key, "leaf from precert chain and leaf for embedded SCT differ")
 			}
+			var lr *ct.MerkleTreeLeaf
+			var errR error
+			if p := verifkit.Guard(func() {
+				lr, errR = ct.MerkleTreeLeafFromRawChain([]ct.ASN1Cert{{Data: chP[0].Raw}, {Data: ca.der}}, ct.PrecertLogEntryType, 1234)
+			}); p != "" || errR != nil || !bytes.Equal(leafBytes(lr), leafBytes(lp)) {
+				x.out.Fail(key, fmt.Sprintf("MerkleTreeLeafFromRawChain differs from MerkleTreeLeafFromChain (%v %s)", errR, p))
+			}
 			// the SCT list read back from the parsed final certificate
 			got := chF[0].SCTList.SCTList
 			same := len(got) == len(items)
@@ -1318,6 +1325,7 @@ func TestVerifC03(t *testing.T) {
 	for i, n := 0, verifkit.N(12, 120); i < n; i++ {
 		x.variantCases(fams[i%3].root[i%2])
 	}
+	x.lengthBoundaries(fams[0].root[1])
 	for i, n := 0, verifkit.N(3, 30); i < n; i++ {
 		x.fuzzCases(fams[i%3].root[i%2], verifkit.N(300, 1500))
 	}
@@ -1346,4 +1354,60 @@ func (x *runner) leanExamples() {
 	}
 	c := x.opCanon(base.assemble())
 	x.opBuild(base.assemble(), nil, c)
+}
+
+// lengthBoundaries sweeps the size of one filler extension so that each of the three enclosing lengths (extension SEQUENCE,
+// [3] wrapper, outer SEQUENCE) crosses 127/128, 255/256 and 65535/65536 between input and output of the removal.
+func (x *runner) lengthBoundaries(ca *authority) {
+	r := x.r
+	tm := &stdx509.Certificate{SerialNumber: big.NewInt(9), Subject: stdpkix.Name{CommonName: "b"}, NotBefore: time.Date(2020, 1, 1, 0, 0, 0, 0, time.UTC), NotAfter: time.Date(2030, 1, 1, 0, 0, 0, 0, time.UTC)}
+	der, err := stdx509.CreateCertificate(rand.Reader, tm, ca.tmpl, x.k.leafs[2].Public(), ca.sgn.key) // Ed25519: small key
+	if err != nil {
+		x.out.Count("gen:create-failed")
+		return
+	}
+	sc, _ := stdx509.ParseCertificate(der)
+	base, ok := splitTBS(sc.RawTBSCertificate)
+	if !ok {
+		return
+	}
+	base.exts, base.hasExts = nil, false
+	sizes := []int{}
+	for n := 0; n <= 300; n++ {
+		sizes = append(sizes, n)
+	}
+	for n := 65536 - 400; n <= 65536+40; n += 7 {
+		sizes = append(sizes, n)
+	}
+	if verifkit.Thorough() {
+		for n := 65536 - 400; n <= 65536+40; n++ {
+			sizes = append(sizes, n)
+		}
+	}
+	sctVal, _ := sctListValue([][]byte{{1, 2, 3}})
+	for _, n := range sizes {
+		filler := mkExt([]byte{0x2a, 0x03, 0x04}, false, bytes.Repeat([]byte{byte(n)}, n))
+		b := base.withExts([][]byte{filler})
+		want := b.assemble()
+		i := r.Intn(2)
+		pre := b.insertExt(i, mkExt(oidPoison, true, []byte{5, 0})).assemble()
+		fin := b.insertExt(1-i, mkExt(oidSCT, false, sctVal)).assemble()
+		key := fmt.Sprintf("length-boundary filler=%d pre=%s", n, h(pre))
+		if n > 1000 {
+			key = fmt.Sprintf("length-boundary filler=%d", n)
+		}
+		cp, cf := x.opCanon(pre), x.opCanon(fin)
+		a, errA := x.opBuild(pre, nil, cp)
+		c, errC := x.opRemove("sct", fin, cf)
+		if !cp || !cf || errA != nil || errC != nil {
+			x.out.Fail(key, fmt.Sprintf("canonical %v %v, errors %v %v", cp, cf, errA, errC))
+			continue
+		}
+		if !bytes.Equal(a, want) || !bytes.Equal(c, want) {
+			x.out.Fail(key, "result is not the spliced expectation")
+		}
+		_, wv, _, _, _ := readTLV(want)
+		_, pv, _, _, _ := readTLV(pre)
+		x.out.Count(fmt.Sprintf("class:length-boundary outer-lenbytes %d->%d", len(derLen(len(pv))), len(derLen(len(wv)))))
+	}
 }
